@@ -14,7 +14,8 @@ class _:
     methods = {"reset_consumer_group_metadata": dict(trace="ResetGroup"),
                "_send_request_to_coordinator": dict(ret="Deferred?", trace="GroupRequest"),
                "_get_coordinator_for_group": dict(ret="Deferred?", trace="FindCoordinator"),
-               "load_metadata_for_topics": dict(ret="Deferred?", trace="LoadMetadata")}
+               "load_metadata_for_topics": dict(ret="Deferred?", trace="LoadMetadata"),
+               "_load_topic_partitions": dict(ret="Deferred?", trace="LoadTopicPartitions")}
 
 
 @klass("ext.PartitionConsumer")
@@ -31,7 +32,7 @@ class _:
 class _:
     external = True
     fields = {"protocol_type": ("str", False)}
-    methods = {"join_group_protocols": dict(ret="List[_JoinGroupRequestProtocol]"), "generate_assignments": dict(ret="Any"), "decode_assignment": dict(ret="Any")}
+    methods = {"join_group_protocols": dict(ret="List[_JoinGroupRequestProtocol]"), "generate_assignments": dict(ret="Any", trace="GenerateAssignments", raises=["_NeedTopicPartitions"]), "decode_assignment": dict(ret="Any")}
 
 
 @klass("afkak._group.Coordinator")
@@ -45,7 +46,7 @@ class _:
               "_heartbeat_looper": ("Ref_LoopingCall", False), "_heartbeat_looper_d": "Optional[Ref_Deferred]",
               "_heartbeat_request_d": "Optional[Ref_Deferred]",
               "session_timeout_ms": ("int", False), "protocol": "Optional[Ref_GroupProtocol]", "topics": ("Any", False),
-              "leader_id": "Any", "consumers": "Dict[str, List[Ref_PartitionConsumer]]"}
+              "leader_id": "Optional[str]", "consumers": "Dict[str, List[Ref_PartitionConsumer]]"}
     invariant = {
         # C17: a scheduled rejoin is represented by a PENDING timer (a fired one kept here would block every later rejoin)
         "rejoin-wait-live": "self._rejoin_wait_dc is None or active(self._rejoin_wait_dc)",
@@ -82,7 +83,11 @@ method("_join_and_sync", "(%s) -> Ref_Deferred" % SELF, modifies=ALL, props=["C1
            # C16: after stop no group request other than the leave is issued - every request of the join sequence is
            # preceded by a fresh look at the stopping flag (the sequence is suspended, and stop() may run, at every yield)
            "call:send_join_group_request#1": {"not-after-stop[C16]": "not self._stopping"},
-           "call:send_sync_group_request#1": {"not-after-stop[C16]": "not self._stopping"},
+           "call:send_sync_group_request#1": {"not-after-stop[C16]": "not self._stopping",
+                                              # C15 "the leader's assignment": exactly the member elected leader computes one
+                                              "only-the-leader-assigns[C15, C17]":
+                                                  "join_response is not None and (n_events('GenerateAssignments') >= 1) == "
+                                                  "(join_response.leader_id == join_response.member_id)"},
            # C17: the member is marked joined BEFORE its consumers are started, so that an error one of them reports while
            # they are being started (which asks for a rejoin) is not overwritten afterwards
            "call:on_join_complete#1": {"joined-before-consumers-start[C17]": "not self._rejoin_needed and self._state == '[joined]'",
@@ -90,7 +95,10 @@ method("_join_and_sync", "(%s) -> Ref_Deferred" % SELF, modifies=ALL, props=["C1
                                        "no-consumers-after-stop[C16]": "not self._stopping"}})
 method("get_coordinator_broker", "(%s) -> Ref_Deferred" % SELF, modifies=ALL, inline_only=True)
 method("send_sync_group_request", "(%s, group_assignment: Any) -> Ref_Deferred" % SELF, modifies=ALL, inline_only=True)
-method("reset_heartbeat_timer", "(%s) -> None" % SELF, modifies=ALL, inline_at_calls=True)
+method("reset_heartbeat_timer", "(%s) -> None" % SELF, modifies=ALL, inline_at_calls=True,
+       # C17 "stable with heartbeats running": the heartbeat timer runs afterwards - started (with its two handlers) if it was not
+       ensures={"heartbeats-running[C17]": "implies(not old(running(self._heartbeat_looper)), n_events('LoopStart') == 1 and "
+                                           "n_added('_heartbeat_timer_failed') == 1 and n_added('_heartbeat_timer_stopped') == 1)"})
 method("on_join_complete", "(%s, assignments: Any) -> Any" % SELF, modifies=ALL, inline_only=True)
 # send_heartbeat_request / send_sync_group_request build a request struct from self.generation_id, which is None outside a
 # generation: that they are only reached with a generation (set by the JoinGroup success callback that runs before the join
@@ -119,20 +127,43 @@ method("rejoin_after_error", "(%s, result: Ref_Failure, label: str = 'x') -> Non
                "implies((exc_is(p_result, 'RebalanceInProgress') or exc_is(p_result, 'CoordinatorNotAvailable') or exc_is(p_result, 'NotCoordinator')) "
                "and old(self._rejoin_wait_dc) is None, n_events('Timer') == 1 and event_arg('Timer', 0, 0) == self.retry_backoff_ms / 1000.0)",
            "one-pending-rejoin[C16]": "implies(old(self._rejoin_wait_dc) is not None and n_calls('on_group_leave') == 0 and n_calls('stop') == 0, "
-                                      "n_events('Timer') == 0)"})
+                                      "n_events('Timer') == 0)",
+           # C17 "coordinator moved or unavailable": the cached coordinator is dropped so that the rejoin looks it up again
+           # (also after a timeout)
+           "stale-coordinator-forgotten[C17]":
+               "n_events('ResetGroup') == ite(old(exc_is(p_result, 'CoordinatorNotAvailable')) or old(exc_is(p_result, 'NotCoordinator')) or "
+               "(old(exc_is(p_result, 'RequestTimedOutError')) and not old(exc_is(p_result, 'RebalanceInProgress')) and "
+               "not old(exc_is(p_result, 'IllegalGeneration')) and not old(exc_is(p_result, 'InvalidGroupId')) and "
+               "not old(exc_is(p_result, 'UnknownMemberId')) and not old(exc_is(p_result, 'InconsistentGroupProtocol'))), 1, 0)",
+           # C17 "a non-Kafka error surfaces on the Deferred returned by start": the member is stopped with that error
+           "non-kafka-errors-stop-the-member[C17]":
+               "n_calls('stop') == ite(not old(exc_is(p_result, 'KafkaError')) and not (old(self._stopping) and old(exc_is(p_result, 't.CancelledError'))), 1, 0)",
+           # C17 "after the documented backoff": the long backoff for errors a quick retry will not cure
+           "long-backoff-for-unexpected-errors[C17]":
+               "implies(n_events('Timer') == 1 and n_calls('on_group_leave') == 0 and not old(exc_is(p_result, 'RebalanceInProgress')) and "
+               "not old(exc_is(p_result, 'CoordinatorNotAvailable')) and not old(exc_is(p_result, 'NotCoordinator')), "
+               "event_arg('Timer', 0, 0) == self.fatal_backoff_ms / 1000.0)"})
 
 method("join_and_sync", "(%s) -> Optional[Ref_Deferred]" % SELF, inv_exempt_at_entry=["rejoin-wait-live"],
        checkpoints={"call:_join_and_sync#1": {
            # C16: at most one join/sync exchange in flight
            "single-exchange[C16]": "old(self._rejoin_d) is None and self._rejoin_needed",
            "wait-handle-cleared[C17]": "self._rejoin_wait_dc is None"}},
-       ensures={"no-second-exchange[C16]": "implies(old(self._rejoin_d) is not None or not old(self._rejoin_needed), n_calls('_join_and_sync') == 0)"})
+       ensures={"no-second-exchange[C16]": "implies(old(self._rejoin_d) is not None or not old(self._rejoin_needed), n_calls('_join_and_sync') == 0)",
+                # C17: an exchange that is started has its end recorded and its escaping errors classified
+                "exchange-outcome-handled[C17]": "n_added('cleanup_rejoin_d') == n_calls('_join_and_sync') and "
+                                                 "n_added('rejoin_d_errback') == n_calls('_join_and_sync')"})
 
 method("_heartbeat", "(%s) -> None" % SELF, props=["C16"],
        checkpoints={"call:send_heartbeat_request#1": {
            "only-while-stable-member[C16]": "not self._stopping and not self._rejoin_needed and old(self._heartbeat_request_d) is None"}},
        ensures={"silent-otherwise[C16]": "implies(old(self._stopping) or old(self._rejoin_needed) or old(self._heartbeat_request_d) is not None, "
-                                         "n_calls('send_heartbeat_request') == 0)"})
+                                         "n_calls('send_heartbeat_request') == 0)",
+                # C17 "stable with heartbeats running": a stable member does send one, and both of its outcomes are handled
+                # (a failed heartbeat is what triggers the rejoin)
+                "heartbeat-sent-and-handled[C17]": "implies(not old(self._stopping) and not old(self._rejoin_needed) and old(self._heartbeat_request_d) is None, "
+                                                   "n_calls('send_heartbeat_request') == 1 and n_added('_handle_heartbeat_success') == 1 "
+                                                   "and n_added('_handle_heartbeat_failure') == 1)"})
 
 method("_handle_heartbeat_success", "(%s, result: Any) -> Any" % SELF, props=["C16"],
        ensures={"slot-cleared[C16]": "self._heartbeat_request_d is None"})
@@ -155,10 +186,12 @@ contract(G + "send_join_group_request.<_join_group_success>")(type('_', (), dict
     sig="(response: _JoinGroupResponse) -> _JoinGroupResponse", props=["C16"], entry_point=True,
     closure_env={"self": "Ref_Coordinator"},
     ensures={"records-the-generation[C16]": "self.member_id == response.member_id and self.generation_id == response.generation_id "
-                                            "and result == response"})))
+                                            "and self.leader_id == response.leader_id and result == response"})))
 
-method("send_join_group_request", "(%s) -> Ref_Deferred" % SELF, props=["C11", "C16"],
+method("send_join_group_request", "(%s) -> Ref_Deferred" % SELF, props=["C11", "C16", "C17"],
        requires=["not self._stopping"],
+       # C16: the reply's generation is recorded; C17: a failed JoinGroup is classified like every other error
+       ensures={"both-outcomes-handled[C16, C17]": "n_added('_join_group_success') == 1 and n_added('rejoin_after_error') == 1"},
        checkpoints={"call:addCallbacks#1": {
            "join-allowed-the-stated-minimum[C11]": "n_events('GroupRequest') == 1 and event_arg('GroupRequest', 0, 4) == 35.0"}})
 
@@ -203,9 +236,13 @@ cg_method("stop_consumers", "(%s) -> None" % SELF,
 # ---- small callbacks of the coordinator (entry points Twisted invokes) ------------------------------------------------
 method("_handle_heartbeat_failure", "(%s, failure: Ref_Failure) -> Any" % SELF, props=["C16", "C17"],
        requires=["running(self._heartbeat_looper)"],
+       # the request slot is free again before anything else happens (a later heartbeat would otherwise be skipped as
+       # "in progress" for ever) and the heartbeat timer is stopped
+       checkpoints={"call:stop#1": {"request-slot-freed-first[C17]": "self._heartbeat_request_d is None"}},
        # C17: a failed heartbeat is classified like every other error (rejoin or stop); stopping the heartbeat timer is an
        # excursion (its Deferred's callbacks run), so no two-state claim is made about the timer afterwards
-       ensures={"classified-like-any-error[C17]": "n_calls('rejoin_after_error') == 1"})
+       ensures={"classified-like-any-error[C17]": "n_calls('rejoin_after_error') == 1",
+                "heartbeats-stopped[C17]": "n_events('LoopStop') == 1"})
 
 method("_heartbeat_timer_failed", "(%s, failure: Ref_Failure) -> Any" % SELF, props=["C17"])
 
@@ -222,4 +259,5 @@ contract(G + "send_leave_group_request.<_leave_group_success>")(type('_', (), di
     ensures={"membership-forgotten[C16]": "self.member_id == '' and self.generation_id is None"})))
 
 method("send_leave_group_request", "(%s) -> Ref_Deferred" % SELF, props=["C16"],
-       checkpoints={"call:addCallback#1": {"one-request[C16]": "n_events('GroupRequest') == 1"}})
+       checkpoints={"call:addCallback#1": {"one-request[C16]": "n_events('GroupRequest') == 1"}},
+       ensures={"membership-forgotten-on-success[C16]": "n_added('_leave_group_success') == 1"})
